@@ -1,0 +1,267 @@
+//go:build verif
+// +build verif
+
+package fit
+
+import (
+	"errors"
+	"io"
+	"reflect"
+	"time"
+)
+
+// This file is only compiled with the "verif" build tag. It contains
+// read-only views of unexported profile tables and thin wrappers around
+// unexported helpers, for use by external verification tooling. It has no
+// behaviour of its own and does not change the package when the tag is off.
+
+// VerifField is a copy of one entry in the profile field lookup table.
+type VerifField struct {
+	Sindex int
+	Num    byte
+	Type   uint16
+	Length byte
+}
+
+// VerifMsg describes one index of the profile lookup tables.
+type VerifMsg struct {
+	Num        int
+	Known      bool
+	InFields   bool
+	HasType    bool
+	HasCtor    bool
+	Fields     []VerifField // non-nil entries of _fields[Num], by field number
+	StructType reflect.Type // nil if !HasType
+}
+
+// VerifTableLens returns len(_fields), len(msgsTypes), len(newMesgFuncs).
+func VerifTableLens() (int, int, int) {
+	return len(_fields), len(msgsTypes), len(newMesgFuncs)
+}
+
+// VerifKnownMsgNums returns the keys of knownMsgNums that map to true.
+func VerifKnownMsgNums() []int {
+	var r []int
+	for k, v := range knownMsgNums {
+		if v {
+			r = append(r, int(k))
+		}
+	}
+	return r
+}
+
+// VerifProfile returns a view of every index covered by any profile table.
+func VerifProfile() []VerifMsg {
+	n := len(_fields)
+	if len(msgsTypes) > n {
+		n = len(msgsTypes)
+	}
+	if len(newMesgFuncs) > n {
+		n = len(newMesgFuncs)
+	}
+	res := make([]VerifMsg, 0, n)
+	for i := 0; i < n; i++ {
+		m := VerifMsg{Num: i, Known: knownMsgNums[MesgNum(i)]}
+		if i < len(_fields) {
+			m.InFields = true
+			for _, f := range _fields[i] {
+				if f != nil {
+					m.Fields = append(m.Fields, VerifField{f.sindex, f.num, uint16(f.t), f.length})
+				}
+			}
+		}
+		if i < len(msgsTypes) && msgsTypes[i] != nil {
+			m.HasType = true
+			m.StructType = msgsTypes[i]
+		}
+		if i < len(newMesgFuncs) && newMesgFuncs[i] != nil {
+			m.HasCtor = true
+		}
+		if m.Known || m.HasType || m.HasCtor || len(m.Fields) > 0 {
+			res = append(res, m)
+		}
+	}
+	return res
+}
+
+// VerifFieldSlot returns the raw lookup slot _fields[m][n] (also nil slots).
+func VerifFieldSlot(m int, n byte) (VerifField, bool) {
+	if m < 0 || m >= len(_fields) {
+		return VerifField{}, false
+	}
+	f := _fields[m][n]
+	if f == nil {
+		return VerifField{}, false
+	}
+	return VerifField{f.sindex, f.num, uint16(f.t), f.length}, true
+}
+
+// VerifNewMesg calls the all-invalid constructor for message number m.
+func VerifNewMesg(m int) (v reflect.Value, ok bool) {
+	if m < 0 || m >= len(newMesgFuncs) || newMesgFuncs[m] == nil {
+		return reflect.Value{}, false
+	}
+	return getMesgAllInvalid(MesgNum(m)), true
+}
+
+// VerifMesgNumOf returns the global message number for a message struct type.
+func VerifMesgNumOf(t reflect.Type) (int, bool) {
+	for i, match := range msgsTypes {
+		if match != nil && t == match {
+			return i, true
+		}
+	}
+	return 0, false
+}
+
+// VerifDecodeDateTime exposes decodeDateTime.
+func VerifDecodeDateTime(dt uint32) time.Time { return decodeDateTime(dt) }
+
+// VerifEncodeTime exposes encodeTime.
+func VerifEncodeTime(t time.Time) uint32 { return encodeTime(t) }
+
+// VerifAccu is the observable state of one component accumulator.
+type VerifAccu struct {
+	Present bool
+	Value   uint32
+	Last    uint32
+	Mask    uint32
+}
+
+func verifAccuView(a *uint32Accumulator) VerifAccu {
+	if a == nil {
+		return VerifAccu{}
+	}
+	return VerifAccu{true, a.accumuValue, a.lastValue, a.mask}
+}
+
+func verifAccuMake(v VerifAccu) *uint32Accumulator {
+	if !v.Present {
+		return nil
+	}
+	return &uint32Accumulator{accumuValue: v.Value, lastValue: v.Last, mask: v.Mask}
+}
+
+// VerifAccumulators returns the state of the package-level accumulators
+// (distance, total_cycles, accumulated_power).
+func VerifAccumulators() [3]VerifAccu {
+	return [3]VerifAccu{
+		verifAccuView(accumuDistance),
+		verifAccuView(accumuTotalCycles),
+		verifAccuView(accumuAccumulatedPower),
+	}
+}
+
+// VerifSetAccumulators presets the package-level accumulators.
+func VerifSetAccumulators(s [3]VerifAccu) {
+	accumuDistance = verifAccuMake(s[0])
+	accumuTotalCycles = verifAccuMake(s[1])
+	accumuAccumulatedPower = verifAccuMake(s[2])
+}
+
+// VerifErrClass maps an error returned by this package to a small enum.
+// fault is the sentinel error an instrumented reader injects (may be nil).
+func VerifErrClass(err error, fault error) string {
+	if err == nil {
+		return "ok"
+	}
+	var (
+		ie  IntegrityError
+		fe  FormatError
+		nse NotSupportedError
+		ioe ioError
+		wft wrongFileTypeError
+	)
+	switch {
+	case fault != nil && errors.Is(err, fault):
+		return "fault"
+	case errors.As(err, &ie):
+		return "integrity"
+	case errors.As(err, &fe):
+		return "format"
+	case errors.As(err, &nse):
+		return "notsupported"
+	case errors.As(err, &ioe):
+		if fault != nil && errors.Is(ioe.err, fault) {
+			return "fault"
+		}
+		return "ioerr"
+	case errors.As(err, &wft):
+		return "wrongfiletype"
+	case errors.Is(err, io.ErrUnexpectedEOF):
+		return "ueof"
+	case errors.Is(err, io.EOF):
+		return "eof"
+	}
+	return "other"
+}
+
+// VerifDevCounts returns the number of field_description and
+// developer_data_id messages collected in f.
+func VerifDevCounts(f *File) (int, int) {
+	if f == nil {
+		return 0, 0
+	}
+	return len(f.fieldDescriptionMsgs), len(f.developerDataIdMsgs)
+}
+
+// VerifDevMsgs returns the collected developer messages of f as values.
+func VerifDevMsgs(f *File) ([]FieldDescriptionMsg, []DeveloperDataIdMsg) {
+	if f == nil {
+		return nil, nil
+	}
+	var a []FieldDescriptionMsg
+	var b []DeveloperDataIdMsg
+	for _, m := range f.fieldDescriptionMsgs {
+		a = append(a, *m)
+	}
+	for _, m := range f.developerDataIdMsgs {
+		b = append(b, *m)
+	}
+	return a, b
+}
+
+// VerifContainer returns the container currently attached to f for its
+// file type by init/NewFile (nil interface if none), without the accessor's
+// type check.
+func VerifContainer(f *File) interface{} {
+	switch {
+	case f == nil:
+		return nil
+	case f.activity != nil:
+		return f.activity
+	case f.device != nil:
+		return f.device
+	case f.settings != nil:
+		return f.settings
+	case f.sport != nil:
+		return f.sport
+	case f.workout != nil:
+		return f.workout
+	case f.course != nil:
+		return f.course
+	case f.schedules != nil:
+		return f.schedules
+	case f.weight != nil:
+		return f.weight
+	case f.totals != nil:
+		return f.totals
+	case f.goals != nil:
+		return f.goals
+	case f.bloodPressure != nil:
+		return f.bloodPressure
+	case f.monitoringA != nil:
+		return f.monitoringA
+	case f.activitySummary != nil:
+		return f.activitySummary
+	case f.monitoringDaily != nil:
+		return f.monitoringDaily
+	case f.monitoringB != nil:
+		return f.monitoringB
+	case f.segment != nil:
+		return f.segment
+	case f.segmentList != nil:
+		return f.segmentList
+	}
+	return nil
+}
